@@ -805,6 +805,61 @@ def rule_spanorder(ctx):
     return r
 
 
+def rule_bracket(ctx):
+    """(seed C20_12) The tracker is a ledger of what the simulated network holds: it learns of a change only through
+    the `update_pre_* / update_post_*` pair around it.  In every function that steps a tracked hypergraph, each
+    `compress` is bracketed by `update_pre_compress` / `update_post_compress` and each `contract` by
+    `update_pre_contract` / `update_post_contract` — dominance and post-dominance on the statement CFG, the opening
+    call in the same block, with no other change of the hypergraph between.  A compression outside a bracket shrinks
+    tensors the ledger still carries at full size: the estimated peak for a small cap exceeds the uncapped one."""
+    r = RuleResult("C20-BRACKET", "every simulated change of the network is bracketed by the tracker's updates", 2)
+    n_owner = 0
+    for f in ctx.p.all_funcs(None):
+        if f.module.path.startswith("cotengra/experimental"):
+            continue
+        ups = [c for c in walk_local(f.node) if isinstance(c, ast.Call) and isinstance(c.func, ast.Attribute)
+               and c.func.attr in ("update_pre_compress", "update_pre_contract", "update_post_compress", "update_post_contract")
+               and isinstance(c.func.value, ast.Name) and c.args and isinstance(c.args[0], ast.Name)]
+        trk = [n for n in walk_local(f.node) if isinstance(n, ast.Assign) and isinstance(n.value, ast.Call)
+               and (dotted(n.value.func) or "").split(".")[-1] == "CompressedStatsTracker" and isinstance(n.targets[0], ast.Name)]
+        if not ups and not trk:
+            continue
+        n_owner += 1
+        if ups:
+            tname, hgname = ups[0].func.value.id, ups[0].args[0].id
+        else:
+            tname = trk[0].targets[0].id
+            hgname = dotted(trk[0].value.args[0]) if trk[0].value.args else None
+        C.require(hgname is not None, f"{f.qual}: the tracked hypergraph not recognised")
+        fl = ctx.flow(f)
+        cfg = fl.cfg
+        calls = fl.calls()
+
+        def nodes_of(method, recv):
+            return [(n, c) for n, c in calls if isinstance(c.func, ast.Attribute) and c.func.attr == method and dotted(c.func.value) == recv]
+        for kind in ("compress", "contract"):
+            pres, posts = nodes_of(f"update_pre_{kind}", tname), nodes_of(f"update_post_{kind}", tname)
+            changes = nodes_of(kind, hgname)
+            others = [n.id for k2 in ("compress", "contract") for n, c in nodes_of(k2, hgname)]
+            for i, (n, c) in enumerate(sorted(changes, key=lambda x: x[1].lineno)):
+                k = ctx.key(f, "C20-BRACKET", f"{kind}#{i}")
+                other_kind = [m_.id for k2 in ("compress", "contract") if k2 != kind for m_, _c in nodes_of(k2, hgname)]
+                pre_ok = [p_ for p_, _ in pres if cfg.dominates(p_.id, n.id) and p_.id != n.id
+                          and cfg.path_avoiding(p_.id, other_kind + [q_.id for q_, _ in posts], n.id) is not None]
+                post_ok = [q_ for q_, _ in posts if cfg.postdominates(q_.id, n.id) and q_.id != n.id]
+                if pre_ok and post_ok:
+                    r.ok(k, C.loc(f, c), f"`{C.unparse(c, 50)}` lies between update_pre_{kind} and update_post_{kind}")
+                else:
+                    miss = ("update_pre_" + kind if not pre_ok else "") + (" and " if not pre_ok and not post_ok else "") + \
+                        ("update_post_" + kind if not post_ok else "")
+                    g = [C.unparse(i_.test, 40) for i_, t in C.enclosing_ifs(f, C.enclosing_stmt(f, c))]
+                    r.violation(k, C.loc(f, c), f"`{C.unparse(c, 50)}`" + (f" under `{g[0]}`" if g else "") + f" changes the simulated network without {miss} "
+                                "around it: the tracker keeps the old sizes in its running total, so sizes, peak and write it reports for a small "
+                                "cap can exceed the uncapped ones")
+    C.require(n_owner >= 1, "no function steps a CompressedStatsTracker")
+    return r
+
+
 def _shared_rules():
     """The tracker charges the hypergraph's pair cost per step: it equals the exact flops only if every involved index is counted once."""
     out = []
@@ -820,5 +875,5 @@ def _shared_rules():
     return out
 
 
-RULES = [rule_spanorder, rule_ledger, rule_cap, rule_sizewrites, rule_own, rule_siblings, rule_samecap, rule_topo, rule_range, rule_steps, rule_surv,
+RULES = [rule_bracket, rule_spanorder, rule_ledger, rule_cap, rule_sizewrites, rule_own, rule_siblings, rule_samecap, rule_topo, rule_range, rule_steps, rule_surv,
          rule_freshstats, rule_reset] + _shared_rules()
